@@ -5,6 +5,7 @@
     lifted to all finite histories of the extended machine.  For every word size w > 0, MAX_CAPACITY >= 8
     and every gcd kernel that honours its length contract. *)
 From Dashu Require Import Base.Prelude Base.Words Int.StorageModel Int.StorageProofs Int.StorageArith Int.StorageHistory Int.StorageOps2.
+From DashuGen Require Import StorageGen.
 From Coq Require Import Permutation.
 Open Scope Z_scope.
 
@@ -28,6 +29,13 @@ Lemma shr_le e k : 0 <= e -> 0 <= k -> 0 <= e / 2 ^ k <= e.
 Proof.
   intros He Hk. assert (0 < 2 ^ k) as Hp by (apply Z.pow_pos_nonneg; lia). split; [apply Z.div_pos; lia|].
   apply Z.div_le_upper_bound; [exact Hp|]. nia.
+Qed.
+
+Lemma shr_le_half e k : 0 <= e -> 0 <= k -> e / 2 ^ (k + 1) <= e / 2.
+Proof.
+  intros He Hk. replace (k + 1) with (Z.succ k) by lia. rewrite Z.pow_succ_r by exact Hk.
+  assert (0 < 2 ^ k) by (apply Z.pow_pos_nonneg; lia). rewrite <- Z.div_div by lia.
+  apply shr_le; [apply Z.div_pos; lia | exact Hk].
 Qed.
 
 Lemma log2_ge_1 e : 2 <= e -> 1 <= Z.log2 e.
@@ -64,7 +72,7 @@ Qed.
 (* ------------------------------------------------------------------ sqr *)
 Lemma wp_square_large ws F m Q : Own F m -> 2 <= len ws -> RQ F Q -> safe (square_large w M ws) m Q.
 Proof.
-  intros HO H2 HQ. unfold square_large. cbv zeta.
+  intros HO H2 HQ. unfold square_large, gen_square_large_request. cbv zeta.
   apply safe_bind. apply safe_guard; [apply Z.leb_le; exact H2|].
   apply safe_bind. eapply (wp_alloc M M_big); [exact HO | lia |]. intros b m1 HO1 E1 E2 HB.
   apply safe_bind. eapply wp_push_repeat; [rewrite E1; lnil; lia|].
@@ -77,7 +85,7 @@ Proof.
   intros HO Ha HQ. unfold sqr_ref. destruct (small_of a) as [d|] eqn:Ea.
   - destruct (d <? Bw w).
     + apply safe_ret. apply HQ; [exact HO | apply ReprInv_from_dword].
-    + cbv zeta. apply safe_bind. eapply (wp_alloc M M_big); [exact HO | lia |]. intros b0 m1 HO1 E1 E2 HB.
+    + cbv zeta. unfold gen_square_dword_spilled_request. apply safe_bind. eapply (wp_alloc M M_big); [exact HO | lia |]. intros b0 m1 HO1 E1 E2 HB.
       apply safe_bind. eapply wp_push; [rewrite E1; lnil; lia|].
       apply safe_bind. eapply wp_push; [lens; rewrite E1; lens; lia|].
       apply safe_bind. eapply wp_push; [lens; rewrite E1; lens; lia|].
@@ -102,11 +110,12 @@ Qed.
 Definition same_block (b0 : buffer) (m0 : mem) (lo hi : Z) : buffer -> mem -> Prop :=
   fun r m' => m' = m0 /\ bblk r = bblk b0 /\ lo <= len (bws r) <= hi.
 
-Lemma wp_pow_square res m :
-  2 <= len (bws res) -> 2 * len (bws res) <= bcap res ->
-  safe (pow_square w res) m (same_block res m (2 * len (bws res)) (2 * len (bws res))).
+Lemma wp_pow_square sc res m :
+  2 <= len (bws res) -> 2 * len (bws res) <= bcap res -> len (bws res) <= sc ->
+  safe (pow_square w sc res) m (same_block res m (2 * len (bws res)) (2 * len (bws res))).
 Proof.
-  intros H2 HC. unfold pow_square. cbv zeta.
+  intros H2 HC HS. unfold pow_square. cbv zeta.
+  apply safe_bind. apply safe_guard; [apply Z.leb_le; exact HS|].
   apply safe_bind. apply wp_push_repeat; [lia|].
   apply safe_bind. apply safe_guard; [apply Z.leb_le; exact H2|].
   apply safe_ret. split; [reflexivity|]. split; [reflexivity|]. lens. lia.
@@ -136,11 +145,11 @@ Proof. unfold bblk. intros E. injection E as _ E2. exact E2. Qed.
 (** pow_word_base: with res = wbase^(2 * (e >> (p+1))) in at most 2 * (e >> (p+1)) words and a capacity of at
     least e + 1 words, the loop runs to the end inside the same block: every push_resizing fits and every
     res.push_zeros(res.len()) has room *)
-Lemma wp_pow_word_loop p : forall e wbase res m,
-  0 <= e -> 2 <= len (bws res) <= 2 * (e / 2 ^ (Z.of_nat p + 1)) -> e + 1 <= bcap res ->
-  safe (pow_word_loop w M p e wbase res) m (same_block res m 2 e).
+Lemma wp_pow_word_loop sc p : forall e wbase res m,
+  0 <= e -> 2 <= len (bws res) <= 2 * (e / 2 ^ (Z.of_nat p + 1)) -> e + 1 <= bcap res -> e / 2 <= sc ->
+  safe (pow_word_loop w M sc p e wbase res) m (same_block res m 2 e).
 Proof.
-  induction p as [|p' IH]; intros e wbase res m He HL HC; cbn [pow_word_loop].
+  induction p as [|p' IH]; intros e wbase res m He HL HC HSC; cbn [pow_word_loop].
   - apply safe_bind. eapply safe_mono; [apply wp_word_mul_step|].
     + intros _. pose proof (shr_le e (Z.of_nat 0) He ltac:(lia)). pose proof (half_step e (Z.of_nat 0) ltac:(lia)).
       destruct (Z.testbit e (Z.of_nat 0)); cbn [Z.b2z] in *; lia.
@@ -156,9 +165,10 @@ Proof.
       pose proof (shr_le e (Z.of_nat p') He ltac:(lia)) as HE.
       assert (0 <= Z.b2z (Z.testbit e (Z.of_nat p')) <= 1) as Hb by (destruct (Z.testbit e (Z.of_nat p')); cbn; lia).
       pose proof (bcap_same _ _ EB) as EC.
+      pose proof (shr_le_half e (Z.of_nat p') He ltac:(lia)) as HH.
       apply safe_bind. eapply safe_mono; [apply wp_pow_square; lia|].
       intros r2 m2 (-> & EB2 & HR2). pose proof (bcap_same _ _ EB2) as EC2.
-      eapply safe_mono; [apply IH; [exact He | lia | lia]|].
+      eapply safe_mono; [apply IH; [exact He | lia | lia | exact HSC]|].
       intros r3 m3 (-> & EB3 & HR3). split; [reflexivity|]. split; [congruence | exact HR3].
 Qed.
 
@@ -170,7 +180,7 @@ Qed.
 
 Lemma wp_pow_word_base base e F m Q : Own F m -> 3 <= e -> RQ F Q -> safe (pow_word_base w M base e) m Q.
 Proof.
-  intros HO He HQ. unfold pow_word_base.
+  intros HO He HQ. unfold pow_word_base, gen_pow_word_request.
   apply safe_bind. apply safe_guard; [apply Z.ltb_lt; lia|].
   destruct (base =? 0); [apply safe_ret; apply HQ; [exact HO | apply ReprInv_zero']|].
   destruct (base =? 1); [apply safe_ret; apply HQ; [exact HO | apply ReprInv_one]|].
@@ -192,7 +202,7 @@ Proof.
   set (r2 := setws (setws res _) _).
   assert (len (bws r2) = 2) as L2 by (unfold r2; lens; rewrite E1; lens; lia).
   apply safe_bind. eapply safe_mono.
-  { apply (wp_pow_word_loop (Z.to_nat (Z.log2 (e / wexp) + 1 - 2)) (e / wexp) wbase r2 m1); [lia | | unfold r2; lens; lia].
+  { apply (wp_pow_word_loop _ (Z.to_nat (Z.log2 (e / wexp) + 1 - 2)) (e / wexp) wbase r2 m1); [lia | | unfold r2; lens; lia | unfold gen_pow_word_scratch_copy; lia].
     rewrite L2. replace (Z.of_nat (Z.to_nat (Z.log2 (e / wexp) + 1 - 2)) + 1) with (Z.log2 (e / wexp)) by lia.
     rewrite top_bit by lia. lia. }
   intros r3 m3 (-> & EB3 & HR3).
@@ -223,11 +233,11 @@ Proof.
 Qed.
 
 (** pow_dword_base: at most 4 * (e >> (p+1)) words on entry, capacity at least 2 * e *)
-Lemma wp_pow_dword_loop p : forall e base res m,
-  0 <= e -> 2 <= len (bws res) <= 4 * (e / 2 ^ (Z.of_nat p + 1)) -> 2 * e <= bcap res ->
-  safe (pow_dword_loop w M p e base res) m (same_block res m 2 (2 * e)).
+Lemma wp_pow_dword_loop sc p : forall e base res m,
+  0 <= e -> 2 <= len (bws res) <= 4 * (e / 2 ^ (Z.of_nat p + 1)) -> 2 * e <= bcap res -> e <= sc ->
+  safe (pow_dword_loop w M sc p e base res) m (same_block res m 2 (2 * e)).
 Proof.
-  induction p as [|p' IH]; intros e base res m He HL HC; cbn [pow_dword_loop].
+  induction p as [|p' IH]; intros e base res m He HL HC HSC; cbn [pow_dword_loop].
   - pose proof (half_step e (Z.of_nat 0) ltac:(lia)) as HS. change (Z.of_nat 0) with 0 in *. rewrite Z.pow_0_r, Z.div_1_r in HS.
     apply safe_bind. eapply safe_mono; [apply wp_dword_mul_step|].
     + intros Hb. rewrite Hb in HS. cbn [Z.b2z] in HS. lia.
@@ -243,13 +253,13 @@ Proof.
       assert (0 <= Z.b2z (Z.testbit e (Z.of_nat p' + 1)) <= 1) as Hb by (destruct (Z.testbit e (Z.of_nat p' + 1)); cbn; lia).
       apply safe_bind. eapply safe_mono; [apply wp_pow_square; lia|].
       intros r2 m2 (-> & EB2 & HR2). pose proof (bcap_same _ _ EB2) as EC2.
-      eapply safe_mono; [apply IH; [exact He | lia | lia]|].
+      eapply safe_mono; [apply IH; [exact He | lia | lia | exact HSC]|].
       intros r3 m3 (-> & EB3 & HR3). split; [reflexivity|]. split; [congruence | exact HR3].
 Qed.
 
 Lemma wp_pow_dword_base base e F m Q : Own F m -> 3 <= e -> Bw w <= base -> RQ F Q -> safe (pow_dword_base w M base e) m Q.
 Proof.
-  intros HO He Hb HQ. unfold pow_dword_base.
+  intros HO He Hb HQ. unfold pow_dword_base, gen_pow_dword_request.
   apply safe_bind. apply safe_guard; [apply andb_true_intro; split; [apply Z.ltb_lt | apply Z.leb_le]; lia|].
   assert (2 <= e) as He2 by lia. pose proof (log2_ge_1 _ He2) as Hl.
   apply safe_bind. eapply (wp_alloc M M_big); [exact HO | lia |]. intros res m1 HO1 E1 E2 HB.
@@ -261,7 +271,7 @@ Proof.
   set (r4 := setws (setws (setws (setws res _) _) _) _).
   assert (len (bws r4) = 4) as L4 by (unfold r4; lens; rewrite E1; lens; lia).
   apply safe_bind. eapply safe_mono.
-  { apply (wp_pow_dword_loop (Z.to_nat (Z.log2 e + 1 - 2)) e base r4 m1); [lia | | unfold r4; lens; lia].
+  { apply (wp_pow_dword_loop _ (Z.to_nat (Z.log2 e + 1 - 2)) e base r4 m1); [lia | | unfold r4; lens; lia | unfold gen_pow_dword_scratch_copy; lia].
     rewrite L4. replace (Z.of_nat (Z.to_nat (Z.log2 e + 1 - 2)) + 1) with (Z.log2 e) by lia.
     rewrite top_bit by lia. lia. }
   intros r5 m5 (-> & EB5 & HR5).
@@ -273,7 +283,7 @@ Qed.
 (* ------------------------------------------------------------------ pow_large_base *)
 Lemma wp_mul_large_nd lhs rhs F m Q : Own F m -> RQ F Q -> safe (mul_large_nd w M lhs rhs) m Q.
 Proof.
-  intros HO HQ. unfold mul_large_nd. cbv zeta. pose proof (len_nonneg lhs). pose proof (len_nonneg rhs).
+  intros HO HQ. unfold mul_large_nd, gen_mul_large_request. cbv zeta. pose proof (len_nonneg lhs). pose proof (len_nonneg rhs).
   apply safe_bind. eapply (wp_alloc M M_big); [exact HO | lia |]. intros b m1 HO1 E1 E2 HB.
   apply safe_bind. eapply wp_push_repeat; [rewrite E1; lnil; lia|].
   eapply (wp_fb w M M_big); [exact HO1 | | exact HQ].
